@@ -87,6 +87,29 @@ def specs():
                             family=family, tag=tag, decl=decl))
     return out
 
+# lazy=True variants (SQLite part only): one per type, Required and Optional. The entity carries the same
+# declaration twice - `a` lazy, `c` eager - so that the first-access fetch (Attribute.load -> db_set) is judged
+# against the value written AND told apart from disagreements the eager read of the same value already has.
+LAZY_FAMILIES = [(f, tag) for f, tag, _, _, _ in _BASE if tag in ('', 'long')]
+def lazy_specs():
+    out = []
+    for family, tag, tkey, args, kw in _BASE:
+        if (family, tag) not in LAZY_FAMILIES: continue
+        for kind in ('Required', 'Optional'):
+            decl = '%s(%s, lazy=True)' % (kind, tkey)
+            out.append(dict(name='L%03d' % len(out), kind=kind, tkey=tkey, args=tuple(args), kw=dict(kw),
+                            family=family, tag=tag, decl=decl, lazy=True))
+    return out
+
+def lazy_grid(spec, quick):
+    """the type's boundary grid; the three big calendar grids are thinned in the quick tier (every 5th
+    point + the ends): the lazy fetch shares sql2py with the eager read, which runs the full grid"""
+    g = grid(spec, quick)
+    if quick and len(g) > 120:
+        tail = g[-3:]
+        g = _dedup(g[:-3][::5] + tail)
+    return g
+
 def int_range(kw):
     size = kw.get('size') or 32
     if kw.get('unsigned'): return 0, 2 ** size - 1
